@@ -134,6 +134,13 @@ func c32Context(d *d2target.Diagram, s d2target.Shape) string {
 			}
 		}
 	}
+	// the renderer places connection labels itself (centre of the longest segment), not where
+	// the layout reserved room for them
+	for _, cn := range d.Connections {
+		if cn.Label != "" && (cn.Src == s.ID || cn.Dst == s.ID) {
+			return "endpoint-of-labelled-connection"
+		}
+	}
 	var tags []string
 	parent := s.ID
 	for {
@@ -233,6 +240,10 @@ func checkC32(h *hx.H, c c32Case) {
 		for _, sc := range scales {
 			out, err, psig, pmsg := renderASCII(d, cs, sc)
 			if psig != "" {
+				if tl, br := d.BoundingBox(); tl.X < -1<<40 || tl.Y < -1<<40 || br.X > 1<<40 || br.Y > 1<<40 {
+					// the layout produced a NaN (see C29 bounding-box-overflow): Diagram.BoundingBox() is garbage
+					psig += ":bounding-box-overflow"
+				}
 				h.FailSoft(psig, "d2ascii Render (charset %s, scale %v) panics: %s\n%s", csName, sc, pmsg, c.Text)
 				continue
 			}
